@@ -206,7 +206,7 @@ func init() {
 		Functions: []string{"fieldmask.NewFieldMask", "fieldmask.(*FieldMask).addPath", "fieldmask.(*pathIterator).Next/lit/str", "fieldmask.newPathToken",
 			"fieldmask.(*FieldMask).Field/Int/Str/All/GetPath/PathInMask", "fieldmask.fieldMap/intMap/strMap", "thrift_reflection.RegisterAST + lookups", "strconv.Atoi/Unquote",
 			"fieldmask.(*FieldMask).MarshalJSON/marshalBegin/marshalRec", "fieldmask.(*FieldMask).TransferFrom/checkAll/setFieldID/setInt/setStr", "fieldmask.FieldMaskType.MarshalText/UnmarshalText"},
-		Bounds: "JSON: mask -> MarshalJSON -> TransferFrom round trip on 9 path lists x 6 query routes (free ids, indices, keys) x white/black; TransferFrom on symbolic decoded documents (6 root types, <=2 children, one grandchild, free node types, path segments of 1 or 3 (thorough 0..3) free bytes) followed by queries of every kind; totality: fixed context prefix (11 contexts) + N free bytes (quick N<=2, thorough N<=4), digit strings up to 20 digits; semantics: masks of two field paths over 15 declared ids (incl. 62..65 around the head/tail storage split, 300) with a FREE int16 query id, white and black list; list indices / int keys written with free digits and a string key with a free byte, in three orders/groupings, queried with a FREE index / key",
+		Bounds: "JSON: mask -> MarshalJSON -> TransferFrom round trip on 9 path lists x 6 query routes (free ids, indices, keys) x white/black; TransferFrom on symbolic decoded documents (6 root types, <=2 children, one grandchild, free node types, path segments of 1 or 3 (thorough 0..5) free bytes) followed by queries of every kind; totality: fixed context prefix (11 contexts) + N free bytes (quick N<=2, thorough N<=4), digit strings up to 20 digits; semantics: masks of two field paths over 15 declared ids (incl. 62..65 around the head/tail storage split, 300) with a FREE int16 query id, white and black list; list indices / int keys written with free digits and a string key with a free byte, in three orders/groupings, queried with a FREE index / key",
 		Assumptions: []string{"fieldmask.newPathValueStr/pathValue.Str (string header smuggled through unsafe.Pointer) are modelled at function level",
 			"math/rand.Read is a stub returning a fixed pattern", "encoding/json is replaced by two harness models: json.Unmarshal of one path segment into *fieldID/*int/*string (JSON integers and escape-free ASCII strings; white space, escapes and non-ASCII bytes assumed away) and the outer decode of a text that follows MarshalJSON's schema; both are validated by the concrete differential (D_C14_5/6) and replaced by the real encoding/json in every native replay", "the Marshal/Unmarshal caches (sync.Map) are outside"},
 		Harnesses: []Harness{
@@ -216,7 +216,7 @@ func init() {
 			{Func: "H_C14_index", Quick: rng(0, 1), Covers: []string{"end", "key"}},
 			{Func: "H_C14_query", Quick: tuples3(seq(0, 5), seq(0, 5), seq(0, 1)), Covers: []string{"end"}},
 			{Func: "H_C14_json", Quick: tuples3(seq(0, 8), seq(0, 5), seq(0, 1)), Covers: []string{"end"}},
-			{Func: "H_C14_transfer", Quick: tuples([]int64{1, 3}, seq(0, 5)), Thorough: tuples(seq(0, 3), seq(0, 5)), Covers: []string{"accepted", "rejected"}},
+			{Func: "H_C14_transfer", Quick: tuples([]int64{1, 3}, seq(0, 5)), Thorough: tuples(seq(0, 5), seq(0, 5)), Covers: []string{"accepted", "rejected"}},
 		},
 	})
 }
